@@ -253,6 +253,7 @@ func runC16(rc *RunCtx) {
 	if rc.Thorough() {
 		nOps = 6 + tp.Pick(22)
 	}
+	replN := 0
 	for i := 0; i < nOps && s.Viol == nil; i++ {
 		op := tp.Pick(12)
 		switch {
@@ -354,6 +355,75 @@ func runC16(rc *RunCtx) {
 				b.revoked = true
 			}
 			if !checkAll(h, "after-concurrent", !autoRebuild) {
+				return
+			}
+		case op == 11: // issuer add/remove: replace an issuer by an equivalent one (same key and subject)
+			oi := tp.Pick(len(issuers))
+			oldIs := issuers[oi]
+			variant := []string{"reissue-same-key", "delete-and-reimport"}[tp.Pick(2)]
+			info, err := h.RootRead("pki/issuer/" + oldIs.ref)
+			if err != nil || info == nil {
+				note("issuer read -> %v", err)
+				continue
+			}
+			keyID := fmt.Sprint(info.Data["key_id"])
+			certPEM := fmt.Sprint(info.Data["certificate"])
+			replN++
+			newRef := fmt.Sprintf("repl%d", replN)
+			del := func() bool {
+				r, e := h.Do("delissuer", Req{Op: logical.DeleteOperation, Path: "pki/issuer/" + oldIs.ref, Token: h.Root})
+				if e != nil || (r != nil && r.IsError()) {
+					note("delete issuer %s -> %v %v", oldIs.ref, e, r)
+					return false
+				}
+				return true
+			}
+			var newCert *x509.Certificate
+			switch variant {
+			case "reissue-same-key":
+				resp, err := h.RootWrite("pki/issuers/generate/root/existing", map[string]any{"common_name": oldIs.cert.Subject.CommonName, "key_ref": keyID, "issuer_name": newRef, "ttl": "87000h"})
+				if err != nil || resp == nil {
+					note("reissue root with existing key -> %v", err)
+					continue
+				}
+				newCert = parseCertPEM(fmt.Sprint(resp.Data["certificate"]))
+				if newCert == nil || !del() {
+					continue
+				}
+			default:
+				if !del() {
+					continue
+				}
+				resp, err := h.RootWrite("pki/issuers/import/cert", map[string]any{"pem_bundle": certPEM})
+				if err != nil || resp == nil {
+					note("re-import issuer -> %v", err)
+					continue
+				}
+				ids, _ := resp.Data["imported_issuers"].([]string)
+				if len(ids) != 1 {
+					note("re-import issuer -> imported %v", resp.Data["imported_issuers"])
+					continue
+				}
+				if _, err := h.RootWrite("pki/issuer/"+ids[0], map[string]any{"issuer_name": newRef}); err != nil {
+					note("name re-imported issuer -> %v", err)
+					newRef = ids[0]
+				}
+				newCert = oldIs.cert
+			}
+			// the replacement verifies the old issuer's leaves, so from now
+			// on it is "their issuer"
+			newIs := &pkiIssuer{ref: newRef, cert: newCert}
+			issuers[oi] = newIs
+			for _, l := range leaves {
+				if l.issuer == oldIs {
+					l.issuer = newIs
+				}
+			}
+			note("issuer %s replaced by %s (%s)", oldIs.ref, newRef, variant)
+			s.Probe("issuer_replaced")
+			// removing/adding an issuer rebuilds the CRLs: with auto-rebuild
+			// off the CRL served now is such a rebuild
+			if !checkAll(h, "after-issuer-replacement", !autoRebuild) {
 				return
 			}
 		default: // read everything
